@@ -84,13 +84,13 @@ theorem le_checkPat : ∀ (p : IPat) ty Γ (s : St), Le s (checkPat p ty Γ s).2
   · intro info args ih ty Γ s
     rcases info with _ | _ | ⟨cty, arity⟩
     · simp only [checkPat]
-      exact (le_mark _).trans ((le_diag _ _).trans ((le_fresh _).trans (le_push _ _)))
+      exact (le_diag _ _).trans ((le_fresh _).trans (le_push _ _))
     · simp only [checkPat]
-      exact (le_mark _).trans ((le_diag _ _).trans ((le_fresh _).trans (le_push _ _)))
+      exact (le_diag _ _).trans ((le_fresh _).trans (le_push _ _))
     · simp only [checkPat]
       split
-      · exact (le_mark _).trans ((le_diag _ _).trans ((le_fresh _).trans (le_push _ _)))
-      · exact (le_mark _).trans ((le_inst _ _).trans ((ih _ _ _).trans (le_push _ _)))
+      · exact (le_diag _ _).trans ((le_fresh _).trans (le_push _ _))
+      · exact (le_inst _ _).trans ((ih _ _ _).trans (le_push _ _))
   · intro ps ih ty Γ s; rw [checkPat]
     exact (le_tupleElemTys _ _ _).trans ((ih _ _ _).trans (le_push _ _))
   · intro tys Γ s; simp only [checkPatZip]; exact Le.refl _
